@@ -193,7 +193,11 @@ def token_form_cases(rng):
 
     t = mk_totp(6, 30)
     good = t.generate(1000).token
-    for tok in ("12345", "1234567", "12345a", "", "      ", "12 34", 12345678, 1234567, 1.5, None, b"12345", ["123456"]):
+    fw = lambda d: "".join(chr(0xFF10 + int(c)) for c in d)                     # noqa: E731  the same digits in full-width form
+    ai = lambda d: "".join(chr(0x0660 + int(c)) for c in d)                     # noqa: E731  … in Arabic-Indic form
+    # a code of the wrong length is malformed in any script: the current code with one more leading zero, or one digit short
+    other_scripts = [fw("0" + good), "0" + fw(good), fw("0") + good, fw(good)[:5], ai("0" + good), ai(good)[1:], fw("00" + good), "０" * 7, "０" * 5]
+    for tok in ["12345", "1234567", "12345a", "", "      ", "12 34", 12345678, 1234567, 1.5, None, b"12345", ["123456"]] + other_scripts:
         for kw in ({}, {"last_counter": 40, "window": 30}, {"last_counter": 10 ** 6}, {"window": 0, "last_counter": 33}, {"skew": -5000, "window": 0}):
             inp = {"op": "malformed", "token": repr(tok), "time": 1000, "kwds": kw}
             try:
